@@ -3,12 +3,15 @@ package main
 import (
 	"fmt"
 	"math"
+	"os"
+	"os/exec"
 	"regexp"
 	"runtime"
 	"runtime/metrics"
 	"sort"
 	"strings"
 	"sync"
+	"time"
 
 	"github.com/prometheus/client_golang/prometheus"
 	"github.com/prometheus/client_golang/prometheus/collectors"
@@ -44,17 +47,36 @@ type wr struct {
 	bk    [][2]uint64
 }
 
-func runHist(unit string, ib []float64, hasSum bool, ups []upd) (panicked bool, hb []float64, outs []wr) {
+func bitsEqual(a, b []float64) bool {
+	if len(a) != len(b) {
+		return false
+	}
+	for i := range a {
+		if math.Float64bits(a[i]) != math.Float64bits(b[i]) {
+			return false
+		}
+	}
+	return true
+}
+
+// runHist runs the real pipeline. The code under test sees ONE boundary slice `in` (as it sees the runtime's
+// own, shared, slice): the re-bucketing is called twice on it, then the histogram is built and updated with it.
+// unchanged: `in` is still bit-identical to the private copy ib afterwards; same: both calls returned the same.
+func runHist(unit string, ib []float64, hasSum bool, ups []upd) (panicked bool, hb []float64, outs []wr, unchanged, same bool) {
 	defer func() {
 		if e := recover(); e != nil {
 			panicked = true
 		}
 	}()
-	red := prometheus.VerifC18BucketsForUnit(append([]float64{}, ib...), unit)
+	in := append([]float64{}, ib...)
+	red := prometheus.VerifC18BucketsForUnit(in, unit)
+	first := append([]float64{}, red...)
+	second := prometheus.VerifC18BucketsForUnit(in, unit)
+	same = bitsEqual(first, second)
 	h := prometheus.VerifC18NewBatchHistogram(red, hasSum)
 	hb = h.Buckets()
 	for _, u := range ups {
-		his := &metrics.Float64Histogram{Counts: append([]uint64{}, u.counts...), Buckets: append([]float64{}, ib...)}
+		his := &metrics.Float64Histogram{Counts: append([]uint64{}, u.counts...), Buckets: in}
 		h.Update(his, u.sum)
 		var m dto.Metric
 		if err := h.Write(&m); err != nil {
@@ -71,10 +93,11 @@ func runHist(unit string, ib []float64, hasSum bool, ups []upd) (panicked bool, 
 		}
 		outs = append(outs, w)
 	}
+	unchanged = bitsEqual(in, ib)
 	return
 }
 
-func histTerm(unit int, ib []float64, hasSum bool, ups []upd, p bool, hb []float64, outs []wr) string {
+func histTerm(unit int, ib []float64, hasSum bool, ups []upd, p bool, hb []float64, outs []wr, unchanged, same bool) string {
 	us := make([]string, len(ups))
 	for i, u := range ups {
 		cs := make([]string, len(u.counts))
@@ -93,7 +116,7 @@ func histTerm(unit int, ib []float64, hasSum bool, ups []upd, p bool, hb []float
 			}
 			ws[k] = emit.Tup(emit.U(o.count), emit.F(o.sum), emit.L(bk))
 		}
-		impl = emit.C(1, emit.FL(hb), emit.L(ws))
+		impl = emit.C(1, emit.FL(hb), emit.L(ws), emit.B(unchanged), emit.B(same))
 	}
 	return emit.C(0, emit.I(unit), emit.FL(ib), emit.B(hasSum), emit.L(us), impl)
 }
@@ -170,7 +193,7 @@ func genFinite(r *emit.Rng, unit int, real [][]float64) ([]float64, string) {
 	if unit == 1 || (unit == 2 && r.Bool()) {
 		base = 10
 	}
-	switch r.Intn(10) {
+	switch r.Intn(12) {
 	case 0: // real runtime layout (stripped of its infinities), sometimes scaled / shifted
 		l := real[r.Intn(len(real))]
 		var fs []float64
@@ -264,6 +287,19 @@ func genFinite(r *emit.Rng, unit int, real [][]float64) ([]float64, string) {
 			}
 		}
 		return out, "layout:random-sorted"
+	case 7, 8: // perfectly exponential: every boundary is the previous one times the base (nothing to merge),
+		// running from below to well above one second
+		x := []float64{1e-9, 1e-6, 0.001, 0.01, 0.1, 0.5, 1, 2, 10, math.Ldexp(1, -20), math.Ldexp(1, -3)}[r.Intn(11)]
+		if base == 2 {
+			x = math.Ldexp(1, r.Intn(40)-30)
+		}
+		n := 3 + r.Intn(24)
+		fs := make([]float64, 0, n)
+		for i := 0; i < n && finite(x); i++ {
+			fs = append(fs, x)
+			x *= base
+		}
+		return fs, "layout:exact-exponential"
 	case 6: // negative values approaching zero, then positive
 		x := -math.Pow(base, float64(1+r.Intn(12)))
 		n := 2 + r.Intn(40)
@@ -373,7 +409,7 @@ func streamHist(c *cli.Ctx, r *emit.Rng) error {
 			ups[k] = upd{counts: genCounts(r, len(ib)-1, prev), sum: r.AnyFloat()}
 			prev = ups[k].counts
 		}
-		p, hb, outs := runHist(unitNames[unit], ib, hasSum, ups)
+		p, hb, outs, unch, same := runHist(unitNames[unit], ib, hasSum, ups)
 		pre := shapeOK(ib) && survives(unit, ib)
 		tags := []string{tag, "unit:" + unitNames[unit]}
 		if negInf {
@@ -397,13 +433,16 @@ func streamHist(c *cli.Ctx, r *emit.Rng) error {
 		if hasSum {
 			tags = append(tags, "has-sum")
 		}
+		if !p && len(hb) == len(fs)+1 && unit != 2 {
+			tags = append(tags, "reduced:nothing-merged-by-reBucketExp")
+		}
 		nz := 0
 		for _, cnt := range ups[0].counts {
 			if cnt != 0 {
 				nz++
 			}
 		}
-		w.Add(histTerm(unit, ib, hasSum, ups, p, hb, outs), pre && !p && len(fs) >= 3 && nz >= 2, tags...)
+		w.Add(histTerm(unit, ib, hasSum, ups, p, hb, outs, unch, same), pre && !p && len(fs) >= 3 && nz >= 2, tags...)
 	}
 	return w.Flush()
 }
@@ -477,14 +516,14 @@ func streamMalformed(c *cli.Ctx, r *emit.Rng) error {
 		for q := range ups {
 			ups[q] = upd{counts: genCounts(r, ncounts, nil), sum: r.AnyFloat()}
 		}
-		p, hb, outs := runHist(unitNames[unit], ib, hasSum, ups)
+		p, hb, outs, unch, same := runHist(unitNames[unit], ib, hasSum, ups)
 		tags := []string{tag, "unit:" + unitNames[unit]}
 		if p {
 			tags = append(tags, "result:panic")
 		} else {
 			tags = append(tags, "result:ok")
 		}
-		w.Add(histTerm(unit, ib, hasSum, ups, p, hb, outs), false, tags...)
+		w.Add(histTerm(unit, ib, hasSum, ups, p, hb, outs, unch, same), false, tags...)
 	}
 	return w.Flush()
 }
@@ -1151,10 +1190,125 @@ func streamCollectors(c *cli.Ctx, r *emit.Rng) error {
 		}
 		w.Add(emit.Tup(emit.I(1), emit.S(what)), len(names) >= 4, "collector:process", "opts:"+what)
 	}
+	// process collector watching a child that dies and is not reaped
+	nz := 3 * c.Scale
+	inconcl := map[string]int{}
+	for i := 0; i < nz; i++ {
+		opts := collectors.ProcessCollectorOpts{}
+		what := "zombie-child"
+		if i%3 == 1 {
+			opts.Namespace = "verif"
+			what = "zombie-child+namespace"
+		}
+		fails, inc := zombieCase(opts)
+		for _, f := range fails {
+			fail(n+np+i, "process collector ["+what+"]: "+f)
+		}
+		tag := "zombie:conclusive"
+		if inc != "" {
+			tag = "zombie:inconclusive:" + inc
+			inconcl[inc]++
+		}
+		w.Add(emit.Tup(emit.I(2), emit.S(what), emit.I(i)), inc == "", "collector:process", tag)
+	}
+	if len(inconcl) > 0 {
+		w.Extra["inconclusive"] = inconcl
+	}
 	if len(direct) > 0 {
 		w.Extra["direct_failures"] = direct
 	}
 	return w.Flush()
+}
+
+func procState(pid int) string {
+	b, err := os.ReadFile(fmt.Sprintf("/proc/%d/stat", pid))
+	if err != nil {
+		return ""
+	}
+	t := string(b)
+	i := strings.LastIndex(t, ")")
+	if i < 0 || i+2 >= len(t) {
+		return ""
+	}
+	return t[i+2 : i+3]
+}
+
+// zombieCase: a process collector (errors not reported: the mix-in mode) watches a child through PidFn. After
+// the first gather the child is killed and not reaped, so /proc/<pid>/stat stays readable while
+// /proc/<pid>/net/netstat does not: a fault in the middle of processCollect. Two more gathers must succeed
+// and no counter present in two gathers may decrease. inconclusive != "" when the fault cannot be produced here.
+func zombieCase(opts collectors.ProcessCollectorOpts) (fails []string, inconclusive string) {
+	sleep, err := exec.LookPath("sleep")
+	if err != nil {
+		return nil, "no-sleep-binary"
+	}
+	cmd := exec.Command(sleep, "60")
+	if err := cmd.Start(); err != nil {
+		return nil, "cannot-start-child"
+	}
+	pid := cmd.Process.Pid
+	defer cmd.Wait()
+	defer cmd.Process.Kill()
+	opts.PidFn = func() (int, error) { return pid, nil }
+	col := collectors.NewProcessCollector(opts)
+	reg := prometheus.NewPedanticRegistry()
+	if err := reg.Register(col); err != nil {
+		return []string{"Register on a pedantic registry failed: " + err.Error()}, ""
+	}
+	gather := func(what string) (snap, bool) {
+		if p := collectRecovered(col); p != "" {
+			fails = append(fails, what+": "+p)
+			return snap{}, false
+		}
+		mfs, err := reg.Gather()
+		if err != nil {
+			fails = append(fails, what+": Gather failed: "+err.Error())
+			return snap{}, false
+		}
+		sn, bad := takeSnap(mfs)
+		if bad != "" {
+			fails = append(fails, what+": "+bad)
+		}
+		return sn, true
+	}
+	before, ok := gather("gather of the live child")
+	if !ok {
+		return fails, ""
+	}
+	net := 0.0
+	for k, v := range before.counters {
+		if strings.Contains(k, "network_") {
+			net += v
+		}
+	}
+	cmd.Process.Kill()
+	deadline := time.Now().Add(5 * time.Second)
+	for procState(pid) != "Z" {
+		if time.Now().After(deadline) {
+			return fails, "child-did-not-become-a-zombie"
+		}
+		time.Sleep(2 * time.Millisecond)
+	}
+	if _, err := os.ReadFile(fmt.Sprintf("/proc/%d/net/netstat", pid)); err == nil {
+		inconclusive = "netstat-of-a-zombie-still-readable"
+	} else if net == 0 {
+		inconclusive = "no-network-traffic-accounted"
+	}
+	prev := before
+	for round := 2; round <= 3; round++ {
+		what := fmt.Sprintf("gather %d (child is a zombie)", round)
+		sn, ok := gather(what)
+		if !ok {
+			return fails, inconclusive
+		}
+		if d := decreased(before, sn); d != "" {
+			fails = append(fails, what+": "+d)
+		} else if d := decreased(prev, sn); d != "" {
+			fails = append(fails, what+": "+d)
+		}
+		prev = sn
+	}
+	return fails, inconclusive
 }
 
 func pedanticComplaint(s string) bool {
